@@ -44,12 +44,16 @@ func checkC10(c *Ctx) {
 	c.explanation = "Static decision over the five modules: the closure of functions reachable from the network entry points (dispatcher, silent-mode buffer, synchroniser, reliable broadcast, classifiers/handlers of the four backends, TPS.Sign, both Verifiers, the connection handler) — through static calls, closures, method values, the VTA call graph and, transitively, every function that reads a field which network-reachable code writes — is enumerated, and in it every panic-capable construct: index/slice expressions whose bounds check the Go compiler's prove pass could NOT eliminate (the compiler is the oracle for the rest), unchecked type assertions, explicit panics, stores into maps held in struct fields, calls through func/interface fields, wire-sized allocations, integer divisions, process-exit calls, and channel sends on the dispatcher's path. Each is discharged by a dominating length guard on the same value (with length arithmetic through re-slicing, conversions, hex encoding and SHA-256 helpers, canonical and validated-length loops), by a structural check (map/field initialised, assertion matches every value stored), or by one line of the frozen reason table (caller contract, or a premise decided by another rule). Anything else is a violation. Hangs in general, panics inside dependencies beyond the named wrappers and CPU exhaustion are not decided."
 	c.notDecided = "absence of hangs in general; panics inside dependencies (tss-lib, mathlib internals beyond the recover wrapper, encoding/asn1); CPU exhaustion"
 	c.Assume("the Go compiler's prove pass only removes bounds checks it has proved (its report lists all remaining ones); mathlib's New{G1,G2}FromBytes recover from malformed encodings (checked below); encoding/asn1 and proto.Unmarshal return errors on malformed input")
-	const P1, P2, P3, P4, R1 = "C10.P1", "C10.P2", "C10.P3", "C10.P4", "C10.R1"
+	const P1, P2, P3, P4, R1, R2 = "C10.P1", "C10.P2", "C10.P3", "C10.P4", "C10.R1", "C10.R2"
 	c.Rule(P1, "every panic-capable construct in the network-reachable closure is discharged", 120)
 	c.Rule(P2, "wire-sized allocations are bounded", 2)
 	c.Rule(P3, "blocking sends on the dispatcher's path have a reason", 3)
 	c.Rule(P4, "no process-exit call in the closure", 0)
 	c.Rule(R1, "mathlib point parsing recovers from panics (dependency's source)", 2)
+	c.Rule(R2, "premises of frozen reasons that are statements about this code (synchroniser decoder contract; digest lengths; parse before store)", 10)
+	ruleC10DiscDecoderContract(c, R2)
+	ruleC10DigestLengths(c, R2)
+	ruleC10ParseBeforeStore(c, R2)
 	total := 0
 	for _, rel := range []string{ModRoot, ModBLS, ModPS, ModECDSA, ModEDDSA} {
 		pm := buildPanicModel(c, rel)
